@@ -239,11 +239,26 @@ type RealResult struct {
 }
 
 func (vc *VC) runReal(fn *ssa.Function, argExprs []string) *RealResult {
-	res := &RealResult{}
+	rs := vc.runRealCases(fn, [][]string{argExprs})
+	return rs[0]
+}
+
+// runRealCases calls the real function once per argument tuple, in one test binary.
+func (vc *VC) runRealCases(fn *ssa.Function, cases [][]string) []*RealResult {
+	out := make([]*RealResult, len(cases))
+	for i := range out {
+		out[i] = &RealResult{}
+	}
+	fail := func(msg string) []*RealResult {
+		for _, r := range out {
+			r.Err = msg
+		}
+		return out
+	}
+	res := out[0]
 	dir, ok := vc.dirOf(fn)
 	if !ok || fn.Signature.Recv() != nil {
-		res.Err = "not replayable: method or external function"
-		return res
+		return fail("not replayable: method or external function")
 	}
 	pkgName := fn.Pkg.Pkg.Name()
 	name := fn.Name()
@@ -289,11 +304,12 @@ func (vc *VC) runReal(fn *ssa.Function, argExprs []string) *RealResult {
 			}
 		}
 	}
-	for _, a := range argExprs {
-		if strings.Contains(a, "math.") {
-			imports["math"] = true
+	for _, argExprs := range cases {
+		for _, a := range argExprs {
+			if strings.Contains(a, "math.") {
+				imports["math"] = true
+			}
 		}
-		// qualified types of other packages are not imported: give up on those
 	}
 	var sb strings.Builder
 	fmt.Fprintf(&sb, "package %s\n\nimport (\n", pkgName)
@@ -301,26 +317,32 @@ func (vc *VC) runReal(fn *ssa.Function, argExprs []string) *RealResult {
 		fmt.Fprintf(&sb, "\t%q\n", imp)
 	}
 	sb.WriteString(")\n\nfunc TestGovcReplay(t *testing.T) {\n")
-	sb.WriteString("\tdefer func() {\n\t\tif r := recover(); r != nil {\n\t\t\tfmt.Printf(\"GOVC-PANIC %v\\n\", r)\n\t\t}\n\t}()\n")
-	call := fmt.Sprintf("%s(%s)", name, strings.Join(argExprs, ", "))
-	if len(lhs) > 0 {
-		fmt.Fprintf(&sb, "\t%s := %s\n", strings.Join(lhs, ", "), call)
-	} else {
-		fmt.Fprintf(&sb, "\t%s\n", call)
+	for ci, argExprs := range cases {
+		fmt.Fprintf(&sb, "\tfunc() {\n\t\tfmt.Println(\"GOVC-CASE %d\")\n", ci)
+		sb.WriteString("\t\tdefer func() {\n\t\t\tif r := recover(); r != nil {\n\t\t\t\tfmt.Printf(\"GOVC-PANIC %v\\n\", r)\n\t\t\t}\n\t\t}()\n")
+		call := fmt.Sprintf("%s(%s)", name, strings.Join(argExprs, ", "))
+		if len(lhs) > 0 {
+			fmt.Fprintf(&sb, "\t\t%s := %s\n", strings.Join(lhs, ", "), call)
+		} else {
+			fmt.Fprintf(&sb, "\t\t%s\n", call)
+		}
+		for _, p := range prints {
+			fmt.Fprintf(&sb, "\t\t%s\n", p)
+		}
+		sb.WriteString("\t\tfmt.Println(\"GOVC-DONE\")\n\t}()\n")
 	}
-	for _, p := range prints {
-		fmt.Fprintf(&sb, "\t%s\n", p)
+	sb.WriteString("}\n")
+	testSrc := sb.String()
+	if len(cases) == 1 {
+		res.Test = testSrc
 	}
-	sb.WriteString("\tfmt.Println(\"GOVC-DONE\")\n}\n")
-	res.Test = sb.String()
 	tmp, err := os.MkdirTemp("", "govc-replay")
 	if err != nil {
-		res.Err = err.Error()
-		return res
+		return fail(err.Error())
 	}
 	defer os.RemoveAll(tmp)
 	testFile := filepath.Join(tmp, "zz_govc_replay_test.go")
-	os.WriteFile(testFile, []byte(res.Test), 0o644)
+	os.WriteFile(testFile, []byte(testSrc), 0o644)
 	target := filepath.Join(vc.repo, dir, "zz_govc_replay_test.go")
 	ov, _ := json.Marshal(map[string]interface{}{"Replace": map[string]string{target: testFile}})
 	ovFile := filepath.Join(tmp, "overlay.json")
@@ -329,9 +351,9 @@ func (vc *VC) runReal(fn *ssa.Function, argExprs []string) *RealResult {
 	cmd.Dir = vc.repo
 	cmd.Env = append(os.Environ(), "GOFLAGS=-mod=mod", "GOPROXY=off", "GOSUMDB=off", "GOTOOLCHAIN=local", "GOCACHE="+goCacheDir())
 	done := make(chan struct{})
-	var out []byte
+	var outBytes []byte
 	go func() {
-		out, _ = cmd.CombinedOutput()
+		outBytes, _ = cmd.CombinedOutput()
 		close(done)
 	}()
 	select {
@@ -340,19 +362,34 @@ func (vc *VC) runReal(fn *ssa.Function, argExprs []string) *RealResult {
 		if cmd.Process != nil {
 			cmd.Process.Kill()
 		}
-		res.Err = "replay timed out"
-		return res
+		return fail("replay timed out")
 	}
-	res.Raw = string(out)
-	res.Results = make([]Value, rs.Len())
-	sawDone := false
-	for _, ln := range strings.Split(res.Raw, "\n") {
+	raw := string(outBytes)
+	for _, r := range out {
+		r.Results = make([]Value, rs.Len())
+	}
+	done2 := make([]bool, len(cases))
+	res = nil
+	cur := -1
+	for _, ln := range strings.Split(raw, "\n") {
+		if strings.HasPrefix(ln, "GOVC-CASE ") {
+			fmt.Sscanf(ln, "GOVC-CASE %d", &cur)
+			if cur >= 0 && cur < len(out) {
+				res = out[cur]
+			}
+			continue
+		}
+		if res == nil {
+			continue
+		}
+		sawDone := false
+		_ = sawDone
 		switch {
 		case strings.HasPrefix(ln, "GOVC-PANIC "):
 			res.Panicked = true
 			res.Panic = strings.TrimPrefix(ln, "GOVC-PANIC ")
 		case strings.HasPrefix(ln, "GOVC-DONE"):
-			sawDone = true
+			done2[cur] = true
 		case strings.HasPrefix(ln, "GOVC-R "):
 			f := strings.SplitN(ln, " ", 4)
 			var idx int
@@ -403,10 +440,15 @@ func (vc *VC) runReal(fn *ssa.Function, argExprs []string) *RealResult {
 			}
 		}
 	}
-	if !sawDone && !res.Panicked {
-		res.Err = "replay did not complete: " + firstLines(res.Raw, 12)
+	for i, r := range out {
+		if len(cases) == 1 {
+			r.Raw = raw
+		}
+		if !done2[i] && !r.Panicked {
+			r.Err = "replay did not complete: " + firstLines(raw, 12)
+		}
 	}
-	return res
+	return out
 }
 
 func goCacheDir() string {
@@ -419,17 +461,19 @@ func goCacheDir() string {
 
 // attachReplay tries to turn a solver model into a confirmed failing input.
 func (rep *Report) attachReplay(v *Violation, rs []*ObResult, best *ObResult) {
-	if best.Status != "sat" || best.Script == nil || best.Script.Con == nil || best.Ob.ExpectSat {
+	if best.Script == nil || best.Script.Con == nil || best.Ob.ExpectSat {
+		return
+	}
+	defer func() {
+		if v.Replay == nil || !v.Replay.Confirmed {
+			rep.corpusReplay(v, best)
+		}
+	}()
+	if best.Status != "sat" {
 		return
 	}
 	sc := best.Script
-	key := ""
-	for k, c := range rep.VC.cs.Funcs {
-		if c == sc.Con {
-			key = k
-		}
-	}
-	fn := rep.VC.funcsByKey[key]
+	fn := rep.funcOfContract(sc.Con)
 	if fn == nil {
 		return
 	}
@@ -458,6 +502,10 @@ func (rep *Report) attachReplay(v *Violation, rs []*ObResult, best *ObResult) {
 		argExprs = append(argExprs, a.goExpr)
 		envVars[p.Name()] = a.val
 		shown[p.Name()] = a.shown
+	}
+	if !bindGhosts(sc.Con, envVars) {
+		v.Replay = &ReplayOutcome{Confirmed: false, Note: "model argument does not have the contract's shape"}
+		return
 	}
 	in, _ := json.Marshal(shown)
 	real := rep.VC.runReal(fn, argExprs)
@@ -521,4 +569,270 @@ func showValue(v Value) string {
 		return "[" + strings.Join(s, " ") + "]"
 	}
 	return fmt.Sprint(v)
+}
+
+// corpusReplay: when the solver gives no usable model, run the real function
+// on a small deterministic corpus of boundary arguments and evaluate the
+// failed clause on each outcome.
+func (rep *Report) corpusReplay(v *Violation, best *ObResult) {
+	if best.Ob.Kind != "P" && best.Ob.Kind != "S" && best.Ob.Kind != "I1" && best.Ob.Kind != "I0" && best.Ob.Kind != "R" {
+		return
+	}
+	sc := best.Script
+	fn := rep.funcOfContract(sc.Con)
+	if fn == nil || fn.Signature.Recv() != nil {
+		return
+	}
+	if fn.TypeParams().Len() > 0 && len(fn.TypeArgs()) == 0 {
+		return
+	}
+	splitVal := map[string]int{}
+	for i, sp := range sc.Splits {
+		if i < len(best.InstVals) {
+			splitVal[sp.Var] = best.InstVals[i]
+		}
+	}
+	type cand struct {
+		expr string
+		val  Value
+	}
+	ints := []int64{0, 1, -1, 2, -2, 3, -3, 5, -8, 7}
+	strs := []string{"0/0/0/0/0", "1/0/0/1/-1", "1/1/1/1/0", "2/3/1/3/-5", "3/7/0/2/-1", "2/0/3/1/1", "1/0/0/1", "a/0/0/0/0", "1/2", "", "2/1/1/2/b", "4/-1/3/3"}
+	lists := [][]string{{}, {"1/0/0/1/-1"}, {"1/0/0/1/-1", "1/0/0/1/0"}, {"0/0/0/0/0", "0/0/0/0/0"}, {"2/3/1/3/-5", "1/1/1/1/0", "2/3/1/3/-5"}, {"1/2"}, {"1/0/0/1/-1", "x"}, {"2/-1/3/2"}}
+	floats := []float64{0, 1, -1, 0.5, -0.5, 180, -180, 85.0511287798, -85.0511287798, 1e-9, 33554432}
+	var doms [][]cand
+	for _, p := range fn.Params {
+		var d []cand
+		if sv, ok := splitVal[p.Name()]; ok {
+			d = []cand{{fmt.Sprintf("%s(%d)", types.TypeString(p.Type(), qualifierShort), sv), big.NewInt(int64(sv))}}
+		} else {
+			switch u := p.Type().Underlying().(type) {
+			case *types.Basic:
+				switch {
+				case u.Info()&types.IsInteger != 0:
+					for _, n := range ints {
+						d = append(d, cand{fmt.Sprintf("%s(%d)", types.TypeString(p.Type(), qualifierShort), n), big.NewInt(n)})
+					}
+				case u.Info()&types.IsString != 0:
+					for _, s := range strs {
+						d = append(d, cand{fmt.Sprintf("%q", s), s})
+					}
+				case u.Info()&types.IsBoolean != 0:
+					d = []cand{{"true", true}, {"false", false}}
+				case u.Info()&types.IsFloat != 0:
+					for _, fl := range floats {
+						r := new(big.Rat)
+						r.SetFloat64(fl)
+						d = append(d, cand{fmt.Sprintf("math.Float64frombits(0x%x)", math.Float64bits(fl)), r})
+					}
+				}
+			case *types.Slice:
+				if eb, ok := u.Elem().Underlying().(*types.Basic); ok && eb.Info()&types.IsString != 0 {
+					for _, l := range lists {
+						var q []string
+						var vs []Value
+						for _, e := range l {
+							q = append(q, fmt.Sprintf("%q", e))
+							vs = append(vs, e)
+						}
+						if vs == nil {
+							vs = []Value{}
+						}
+						d = append(d, cand{"[]string{" + strings.Join(q, ", ") + "}", vs})
+					}
+				}
+			}
+		}
+		if len(d) == 0 {
+			return
+		}
+		doms = append(doms, d)
+	}
+	// cartesian product, capped
+	total := 1
+	for _, d := range doms {
+		total *= len(d)
+		if total > 4000 {
+			break
+		}
+	}
+	for total > 4000 {
+		// shrink the largest domain
+		bi := 0
+		for i, d := range doms {
+			if len(d) > len(doms[bi]) {
+				bi = i
+			}
+		}
+		doms[bi] = doms[bi][:len(doms[bi])-1]
+		total = 1
+		for _, d := range doms {
+			total *= len(d)
+		}
+	}
+	var cases [][]string
+	var caseVals [][]Value
+	idx := make([]int, len(doms))
+	for {
+		var ex []string
+		var vs []Value
+		for i, d := range doms {
+			ex = append(ex, d[idx[i]].expr)
+			vs = append(vs, d[idx[i]].val)
+		}
+		cases = append(cases, ex)
+		caseVals = append(caseVals, vs)
+		k := len(idx) - 1
+		for k >= 0 {
+			idx[k]++
+			if idx[k] < len(doms[k]) {
+				break
+			}
+			idx[k] = 0
+			k--
+		}
+		if k < 0 {
+			break
+		}
+	}
+	if len(cases) == 0 {
+		return
+	}
+	results := rep.VC.runRealCases(fn, cases)
+	rsig := fn.Signature.Results()
+	for ci, real := range results {
+		if real.Err != "" {
+			if v.Replay == nil {
+				v.Replay = &ReplayOutcome{Note: "corpus search: " + real.Err}
+			}
+			return
+		}
+		shown := map[string]string{}
+		for i, p := range fn.Params {
+			shown[p.Name()] = cases[ci][i]
+		}
+		in, _ := json.Marshal(shown)
+		if real.Panicked {
+			if best.Ob.Kind == "S" || best.Ob.Kind == "P" {
+				// panics matter only inside the function's precondition
+				if !rep.requiresHold(sc.Con, fn, caseVals[ci]) {
+					continue
+				}
+				v.Replay = &ReplayOutcome{Confirmed: true, Inputs: string(in), Output: "panic: " + real.Panic, Note: "found by the boundary corpus: the real function panics", Test: rep.VC.singleTest(fn, cases[ci])}
+				return
+			}
+			continue
+		}
+		if best.Ob.Kind != "P" || best.Ob.Clause == nil {
+			continue
+		}
+		envVars := map[string]Value{}
+		for i, p := range fn.Params {
+			envVars[p.Name()] = caseVals[ci][i]
+		}
+		if !rep.requiresHold(sc.Con, fn, caseVals[ci]) {
+			continue
+		}
+		bindGhosts(sc.Con, envVars)
+		complete := true
+		for i := 0; i < rsig.Len(); i++ {
+			if real.Results[i] == nil {
+				complete = false
+				continue
+			}
+			envVars[fmt.Sprintf("r%d", i)] = real.Results[i]
+			if n := rsig.At(i).Name(); n != "" && n != "_" {
+				envVars[n] = real.Results[i]
+			}
+		}
+		_ = complete
+		val, err := Eval(best.Ob.Clause.Expr, &EvalEnv{Vars: envVars, Defs: rep.VC.cs.Defs})
+		if err != nil {
+			continue
+		}
+		if b, ok := val.(bool); ok && !b {
+			var shownRes []string
+			for i, r := range real.Results {
+				shownRes = append(shownRes, fmt.Sprintf("r%d=%v", i, showValue(r)))
+			}
+			v.Replay = &ReplayOutcome{Confirmed: true, Inputs: string(in), Output: strings.Join(shownRes, " "),
+				Note: "found by the boundary corpus: the clause is false on the real function's results (quantifiers evaluated over the finite relevant domain)", Test: rep.VC.singleTest(fn, cases[ci])}
+			return
+		}
+	}
+}
+
+func (rep *Report) requiresHold(con *Contract, fn *ssa.Function, vals []Value) bool {
+	envVars := map[string]Value{}
+	for i, p := range fn.Params {
+		envVars[p.Name()] = vals[i]
+	}
+	if !bindGhosts(con, envVars) || !splitsHold(con, envVars) {
+		return false
+	}
+	for _, c := range con.Requires {
+		val, err := Eval(c.Expr, &EvalEnv{Vars: envVars, Defs: rep.VC.cs.Defs})
+		if err != nil {
+			return false
+		}
+		if b, ok := val.(bool); !ok || !b {
+			return false
+		}
+	}
+	return true
+}
+
+func (vc *VC) singleTest(fn *ssa.Function, args []string) string {
+	return fmt.Sprintf("call: %s(%s)", fn.Name(), strings.Join(args, ", "))
+}
+
+func (rep *Report) funcOfContract(con *Contract) *ssa.Function {
+	for k, c := range rep.VC.cs.Funcs {
+		if c == con {
+			return rep.VC.funcsByKey[k]
+		}
+		for _, cc := range c.Cases {
+			if cc == con {
+				return rep.VC.funcsByKey[k]
+			}
+		}
+	}
+	return nil
+}
+
+// bindGhosts derives the ghost integers of shaped parameters from the
+// concrete argument strings; false if an argument does not have the shape.
+func bindGhosts(con *Contract, envVars map[string]Value) bool {
+	for _, sh := range con.Shapes {
+		sv, ok := envVars[sh.Param].(string)
+		if !ok {
+			return false
+		}
+		fs := strings.Split(sv, "/")
+		if len(fs) != len(sh.Ghosts) {
+			return false
+		}
+		for i, g := range sh.Ghosts {
+			n, ok := new(big.Int).SetString(fs[i], 10)
+			if !ok || n.String() != fs[i] || n.Cmp(bigMin64) < 0 || n.Cmp(bigMax64) > 0 {
+				return false
+			}
+			envVars[g] = n
+		}
+	}
+	return true
+}
+
+func splitsHold(con *Contract, envVars map[string]Value) bool {
+	for _, sp := range con.Splits {
+		v, ok := envVars[sp.Var]
+		if !ok {
+			return false
+		}
+		n, ok := v.(*big.Int)
+		if !ok || !n.IsInt64() || n.Int64() < int64(sp.Lo) || n.Int64() > int64(sp.Hi) {
+			return false
+		}
+	}
+	return true
 }
